@@ -31,6 +31,7 @@ export VERIF_DIR=/verif/.work/selftest_out/$NAME; mkdir -p $VERIF_DIR/evidence; 
 for c in ${CHECKS:-C01 C02 C03 C04 C05 C06 C07 C08 C09 C10 C11 C12 C13 C14 C15 C16 C17 C18 C19 C20}; do
   r=$(AIS_REPO=$TMP timeout 900 /verif/bin/check $c ${TIER:-quick} 2>&1)
   if echo "$r" | grep -q "^VIOLATION property=$c"; then k=$(echo "$r" | grep -m1 "key=" | sed 's/^ *key=//' | cut -c1-160); FIRED="$FIRED $c"; echo "  $c FIRED $k"; else SILENT="$SILENT $c"; fi
+  if echo "$r" | grep -q "facts-unavailable\|internal-error"; then echo "  $c BROKEN (facts unavailable / analyser error)"; fi
 done
 echo "fired:$FIRED"
 python3 - "$OUT" "$b1" "$b2" "$b3" "$suite" "$demo_base" "$demo_mut" "$FIRED" <<'PY'
